@@ -224,11 +224,180 @@ func (c *ctx) c07tpCheck(sp tpSpec, ref *tpRef, sched string, seed int64) {
 	}
 }
 
+// ---------------------------------------------------------------------------------------------
+// foreign-session traffic: every message of a sibling execution at every position of the victim's schedule
+
+type tpForeignOut struct {
+	Skip    string // non-empty: the sibling cannot serve as a source of foreign traffic (why)
+	SameTag bool   // the sibling has the victim's session tag: its messages are not foreign by anything a handler can see
+	Foreign int    // messages of the sibling
+	Offered int
+	Bad     string // first failure of the oracle
+	Sim     *Sim
+	Order   []string
+	Dead    bool
+	Res     map[party.ID]string
+}
+
+// tpForeignRun: the sibling session is run to completion (its own random streams) and all its messages are collected; then
+// the victim session runs in order, and at every position -- before the first delivery, after every delivery, after the end --
+// every sibling message is offered to the party it could be meant for: CanAccept must be false, a forced Accept must leave
+// the state fingerprint (incl. the set of stored rounds) unchanged and emit nothing.  The victim must complete with the
+// result of its undisturbed run.
+func (c *ctx) tpForeignRun(sp tpSpec, ref *tpRef, sib tpSpec) *tpForeignOut {
+	o := &tpForeignOut{Res: map[party.ID]string{}}
+	// the sibling execution
+	sdet := installDetReader(sib.DetSeed, 0)
+	a := sib.Build(sdet)
+	for _, n := range a.Nodes {
+		if n.H == nil {
+			restoreRandReader()
+			o.Skip = fmt.Sprintf("sibling session did not start: %v", n.StartErr)
+			return o
+		}
+	}
+	a.RunFIFO(1000)
+	restoreRandReader()
+	var foreign []*protocol.Message
+	var atag []byte
+	for _, id := range a.IDs {
+		for _, m := range a.Nodes[id].Out {
+			foreign = append(foreign, m)
+			if atag == nil {
+				atag = nonNil(m.SSID)
+			}
+		}
+	}
+	o.Foreign = len(foreign)
+	if len(foreign) == 0 {
+		o.Skip = "sibling session emitted nothing"
+		return o
+	}
+	vtag := ref.Shapes[sp.IDs[0]].SSID
+	if sameBytes(atag, vtag) {
+		o.SameTag = true
+		return o
+	}
+	// the victim
+	det := installDetReader(sp.DetSeed, 0)
+	defer restoreRandReader()
+	s := sp.Build(det)
+	s.AcceptTimeout = 60e9
+	o.Sim = s
+	for _, n := range s.Nodes {
+		if n.H == nil {
+			o.Skip = fmt.Sprintf("victim session did not start: %v", n.StartErr)
+			return o
+		}
+		tpNote(n)
+	}
+	position := 0
+	offerAll := func() {
+		position++
+		for _, m := range foreign {
+			for _, id := range s.IDs {
+				if o.Dead || !m.IsFor(id) {
+					continue
+				}
+				n := s.Nodes[id]
+				o.Offered++
+				e := &Env{Msg: c07Retransmit(m), To: id, Valid: true, Tag: "/foreign"}
+				o.Order = append(o.Order, envName(e))
+				before := tpStateFP(n)
+				can := s.tpCanAccept(id, e.Msg, true)
+				ob := s.tpDeliver(e)
+				if ob.Hung {
+					o.Dead = true
+				}
+				after := ""
+				if !o.Dead {
+					after = tpStateFP(n)
+				}
+				if o.Bad == "" && (can || o.Dead || after != before || len(ob.NewOut) > 0 || ob.Panic != "") {
+					o.Bad = fmt.Sprintf("round-%d message of %s from the sibling session (tag %x, victim tag %x) offered to %s at position %d: CanAccept=%v, state changed=%v, emitted=%d, panic=%q, blocked=%v (handler now: round %d, error %q)",
+						m.RoundNumber, m.From, atag[:6], vtag[:6], id, position, can, after != before, len(ob.NewOut), ob.Panic, ob.Hung, ob.Round, ob.ErrText)
+				}
+			}
+		}
+	}
+	offerAll()
+	for steps := 0; len(s.Flight) > 0 && steps < 400 && !o.Dead; steps++ {
+		e := s.take(0)
+		o.Order = append(o.Order, envName(e))
+		if ob := s.tpDeliver(e); ob.Hung {
+			o.Dead = true
+		}
+		offerAll()
+	}
+	if o.Dead {
+		return o
+	}
+	for _, id := range s.IDs {
+		r, errText := resultOf(s.Nodes[id])
+		if errText != "" {
+			o.Res[id] = "ERR:" + errText
+			if o.Bad == "" {
+				o.Bad = fmt.Sprintf("party %s did not complete: %s", id, errText)
+			}
+		} else {
+			o.Res[id] = resultFP(r)
+			if ref.Determ && o.Res[id] != ref.FP[id] && o.Bad == "" {
+				o.Bad = fmt.Sprintf("party %s result differs from the undisturbed run", id)
+			}
+		}
+	}
+	return o
+}
+
+// c07tpForeign: one sibling as the source of foreign traffic for sp.
+func (c *ctx) c07tpForeign(sp tpSpec, ref *tpRef, sib tpSpec) {
+	o := c.tpForeignRun(sp, ref, sib)
+	sched := "foreign/" + sib.Name
+	class := sp.Name + "/twoparty/" + sched
+	switch {
+	case o.Skip != "":
+		c.res.Case(class+"/skipped", sp.Name+"/"+sched, false)
+		c.res.Note("%s %s: %s", sp.Name, sched, o.Skip)
+		return
+	case o.SameTag:
+		c.res.Case(class+"/same-tag(not-foreign)", sp.Name+"/"+sched, false)
+		c.res.Note("%s: the sibling session differing in %s has the SAME session tag: nothing a handler sees tells its messages from the session's own (C09 judges tags; not used as foreign traffic here)", sp.Name, sib.Name)
+		return
+	}
+	c.res.Case(class, sp.Name+"/"+strings.Join(o.Order, ","), o.Offered > 0)
+	c.res.Sample(8, map[string]interface{}{"spec": sp.Name, "schedule": sched, "foreign_messages": o.Foreign, "offers": o.Offered})
+	rp := schedReplay{Spec: sp.Name, Seed: c.res.Seed, Policy: sched, Order: o.Order, Expected: resString(ref.FP), Observed: resString(o.Res)}
+	if len(rp.Order) > 60 {
+		rp.Order = append(append([]string{}, rp.Order[:60]...), fmt.Sprintf("... (%d more)", len(o.Order)-60))
+	}
+	if o.Bad != "" {
+		c.res.Violate("property", "C07/"+sp.Name+"/"+sched, "a message of another session (differing in "+sib.Name+") is not a no-op for a two-party session: "+o.Bad, rp)
+	}
+	if o.Dead || o.Sim == nil {
+		return
+	}
+	for _, id := range o.Sim.IDs {
+		i, mo, ro, err := c.CompareTwoPartyWithModel(o.Sim, o.Sim.Nodes[id], ref.Shapes[id], true, true)
+		if err != nil {
+			c.res.Corr(false)
+			c.res.Violate("correspondence", "C07/twoparty-model-error", err.Error(), rp)
+			continue
+		}
+		c.res.Corr(i < 0)
+		if i >= 0 {
+			r2 := rp
+			r2.Expected, r2.Observed, r2.Node, r2.Event = mo, ro, string(id), i
+			c.res.Violate("correspondence", "C07/twoparty-handler-model/"+sp.Name, "two-party handler state differs from the Coq model after an event (foreign-session traffic)", r2)
+		}
+	}
+}
+
 // c07TwoParty: called at the end of runC07; with rp != nil only that case is re-run.
 func (c *ctx) c07TwoParty(rp *schedReplay) {
 	c.res.Rule += "; TwoPartyHandler (Doerner keygen, sign): genuine messages only -- every message twice, every earlier message re-sent before / after / around " +
 		"every later delivery, every genuine later-round message given early (all at the start; the next round's before each delivery), LIFO, seeded mixes of " +
-		"fresh / duplicate / stale / early, final re-send of everything; every party must complete with the in-order result; every node replayed in the Coq two-party model"
+		"fresh / duplicate / stale / early, final re-send of everything; every party must complete with the in-order result; every node replayed in the Coq two-party model; " +
+		"foreign-session traffic: every message of a sibling execution (other session id, absent session id, keygen vs sign, swapped roles, other message) at every position of the in-order schedule: refused, state unchanged, in-order result"
 	specs, err := tpSpecs()
 	if err != nil {
 		c.res.Violate("property", "C07/twoparty/setup", "Doerner reference sessions did not complete: "+err.Error(), nil)
@@ -248,13 +417,23 @@ func (c *ctx) c07TwoParty(rp *schedReplay) {
 			c.res.Note("%s: two runs with the same random streams differ; early deliveries and result comparison are not available", sp.Name)
 		}
 		if rp != nil {
-			if rp.Spec == sp.Name {
+			if rp.Spec == sp.Name && strings.HasPrefix(rp.Policy, "foreign/") {
+				for _, sib := range sp.Sibs {
+					if "foreign/"+sib.Name == rp.Policy {
+						c.c07tpForeign(sp, ref, sib)
+					}
+				}
+			} else if rp.Spec == sp.Name {
 				c.c07tpCheck(sp, ref, rp.Policy, rp.Seed)
 			}
 			continue
 		}
 		for _, sched := range c07tpSchedules {
 			c.c07tpCheck(sp, ref, sched, c.res.Seed)
+		}
+		// foreign-session traffic: every message of every sibling session at every position
+		for _, sib := range sp.Sibs {
+			c.c07tpForeign(sp, ref, sib)
 		}
 		for k := 0; k < nMix; k++ {
 			c.c07tpCheck(sp, ref, fmt.Sprintf("random-mix/%d", k), c.res.Seed*100000+int64(k))
